@@ -125,6 +125,13 @@ func (g *e6) menu(t reflect.Type, depth int, where string) []reflect.Value {
 		two := reflect.MakeSlice(t, 2, 4) // spare capacity on purpose
 		two.Index(0).Set(em[0])
 		two.Index(1).Set(em[len(em)-1])
+		if len(em) >= 2 {
+			// the same two elements in the opposite order (an order-normalising copy shows on one of the two)
+			rev := reflect.MakeSlice(t, 2, 2)
+			rev.Index(0).Set(deepClone(em[len(em)-1]))
+			rev.Index(1).Set(deepClone(em[0]))
+			return []reflect.Value{empty, one, two, rev}
+		}
 		return []reflect.Value{empty, one, two}
 	case reflect.Map:
 		kt, et := t.Key(), t.Elem()
